@@ -163,7 +163,9 @@ func (s *State) LoadIntermediate() {
 		gcmn.PanicSanity(gcmn.Fmt("State mismatch for ReceiptsHash. Got %X, Expected %X", s2.ReceiptsHash, s.ReceiptsHash))
 	}
 
-	s.setBlockAndValidators(s2.LastBlockHeight, s2.LastNonEmptyHeight, s2.LastBlockID, s2.LastBlockTime, s2.Validators.Copy(), s2.LastValidators.Copy())
+	// setBlockAndValidators takes (prevValSet, nextValSet): the intermediate state's LastValidators are the
+	// previous set and its Validators the next one.
+	s.setBlockAndValidators(s2.LastBlockHeight, s2.LastNonEmptyHeight, s2.LastBlockID, s2.LastBlockTime, s2.LastValidators.Copy(), s2.Validators.Copy())
 }
 
 func (s *State) SetBlockExecutable(ex IBlockExecutable) {
